@@ -5,10 +5,12 @@ passed through per-worker semaphores.  Pre-emption points are sys.settrace
 line events (optionally opcode events) in frames whose code lives under
 <repo>/oslo_policy/ (tests excluded).  A run executes a *plan*:
 
-    [['T', worker, n_events | None], ['OP'], ...]
+    [['T', worker, n_events | None], ['C', worker, n_calls], ['OP'], ...]
 
 'T' lets `worker` run until n more events have fired in library frames (None:
-to completion); 'OP' applies the operator's next edit atomically.  Workers
+to completion); 'C' lets it run until it has completed n more of its calls
+(the worker function reports call boundaries through yield_point); 'OP'
+applies the operator's next edit atomically.  Workers
 block only at segment boundaries or on a cooperative lock held by a parked
 worker, so a run costs about as much as the traced calls themselves.
 
@@ -60,6 +62,7 @@ class Sched:
         self.lock_handovers = 0
         self.ops_applied = 0
         self.remaining = None  # events left in the current 'T' segment
+        self.calls_remaining = None  # calls left in the current 'C' segment
 
     # -- scheduling core (always called by the thread holding the baton)
     def _runnable(self, w):
@@ -90,8 +93,22 @@ class Sched:
             w = s[1]
             if not self._runnable(w):
                 continue
-            self.remaining = s[2]
+            if s[0] == 'C':
+                self.remaining = None
+                self.calls_remaining = s[2]
+            else:
+                self.remaining = s[2]
+                self.calls_remaining = None
             return w
+
+    def yield_point(self, i):
+        """Called by worker i (outside library frames) after each of its
+        calls: ends a 'C' segment once its calls are used up."""
+        if self.calls_remaining is not None:
+            self.calls_remaining -= 1
+            if self.calls_remaining <= 0:
+                self.calls_remaining = None
+                self._handover(i, 'call')
 
     def _handover(self, me, why, pos=None):
         """Called by worker `me` holding the baton: pick the next worker,
